@@ -251,7 +251,14 @@ def cert_points(rng, tier):
     for p in sp: cats.setdefault(p[0], []).append(p)
     def pick(name):
         if tier == "thorough":
-            return [p for p in sp if not on_cut(name, (p[1], p[2]))]
+            # every structured point; the 2^-20 / 2^-30 offsets only next to the axis that carries the function's cuts
+            ax = CUT_AXIS.get(name, "")
+            def keep(c):
+                if "@" not in c or c.endswith("@10"): return True
+                if c.startswith("cut-real"): return ax == "real"
+                if c.startswith("cut-imag"): return ax == "imag"
+                return ax != ""                       # branch points at 2^-20: functions with cuts
+            return [p for p in sp if keep(p[0]) and not on_cut(name, (p[1], p[2]))]
         chosen = []
         def take(c, k):
             pool = g.shuffle([p for p in cats[c] if not on_cut(name, (p[1], p[2]))])
